@@ -401,6 +401,46 @@ def check(case: t.Any, ctx: Ctx) -> None:
         SKIP_EXCLUDED[0] = False
 
 
+# ---- from_yaml_all with an element type whose meaning depends on the order of its members ----------------------------------------
+#
+# "from_yaml_all returns one converted value per document" - converted as from_yaml converts one document: Union[date, str] reads
+# '2024-02-29' as a date, Union[str, date] as text, whichever of the two (or a List of either) was written first in the program.
+
+def order_cases(shard: int, nshards: int) -> t.Iterator[t.Any]:
+    i = 0
+    for pair in (('date', 'str'), ('str', 'date'), ('float', 'int'), ('int', 'float')):
+        for rnd in range(2):
+            if i % nshards == shard:
+                yield [list(pair), rnd]
+            i += 1
+
+
+def check_yaml_all_order(case: t.Any, ctx: Ctx) -> None:
+    import datetime
+    import pane
+    (pair, rnd) = case
+    types_ = {'date': datetime.date, 'str': str, 'float': float, 'int': int}
+    (a, b) = (types_[pair[0]], types_[pair[1]])
+    t.List[t.Union[b, a]]        # type: ignore  # (the other order, in a List, exists somewhere in the program)
+    T = t.Union[a, b]            # type: ignore
+    if t.get_args(T) != (a, b):
+        return       # (typing handed back the other spelling for the union itself: not pane's doing)
+    docs = "--- 2024-02-29\n--- not a date\n" if 'date' in pair else "--- 1\n--- 2.5\n"
+    ctx.label(f"order:{pair[0]},{pair[1]}")
+    ctx.nontrivial(True)
+    ctx.evaluated()
+    if 'date' in pair:
+        docs = '--- "2024-02-29"\n--- "not a date"\n'
+    one = [outcome(lambda d=d: pane.from_yaml(io.StringIO(d), T)) for d in docs.split('--- ')[1:]]
+    (k, many) = outcome(lambda: pane.from_yaml_all(io.StringIO(docs), T))
+    want = [r for (_, r) in one]
+    if any(k1 != 'ok' for (k1, _) in one):
+        return
+    if k != 'ok' or [type(x) for x in many] != [type(x) for x in want] or many != want:
+        ctx.fail('yaml-all', f"element-type-member-order:{pair[0]},{pair[1]}", f"documents {docs!r} as Union[{pair[0]}, {pair[1]}] (List[Union[{pair[1]}, {pair[0]}]] exists): "
+                 f"from_yaml, one document at a time, gives {want!r}; from_yaml_all gives {many!r}")
+
+
 def suites(tier: str) -> t.List[Suite]:
     big = tier == 'thorough'
     leaves = 6 if big else 3
@@ -413,4 +453,5 @@ def suites(tier: str) -> t.List[Suite]:
     texty = st.one_of(texty, cg.class_specs(st.sampled_from([S_, ('seq', 'List', S_), ('map', 'Dict', S_, S_)]), max_fields=3, hooks=False))
     return [Suite('io', check, strategy=lambda: cases(gen.all_type_specs(leaves)), examples=6000 if big else 500, budget_s=480 if big else 40, render=render),
             Suite('lookalike-strings', check, strategy=lambda: cases(texty), examples=1500 if big else 150, budget_s=90 if big else 15, render=render),
+            Suite('yaml-all-member-order', check_yaml_all_order, cases=order_cases, exhaustive=True, budget_s=20, render=lambda c: {'members': c[0]}),
             Suite('scalar-documents', check, strategy=lambda: cases(roots), examples=600 if big else 60, budget_s=60 if big else 10, render=render)]
